@@ -33,7 +33,70 @@ class C07(PropBase):
     thorough_per_shard = 5000
 
     def scenario(self, rng, tier):
-        return self.rx_family(rng) if rng.random() < 0.55 else self.tx_family(rng)
+        r = rng.random()
+        if r < 0.5:
+            return self.rx_family(rng)
+        if r < 0.85:
+            return self.tx_family(rng)
+        return self.tx_midblock_wait_family(rng)
+
+    # ------------------------------------------------------------------ TX, Wait frame received mid-block (sender paced by STmin)
+    def tx_midblock_wait_family(self, rng):
+        a, _ = gen.rand_addr_pair(rng, mode=rng.choice([0, 0, 1, 4, 6]), asym_prob=0)
+        T_ms = rng.choice([5, 100, 1000, 1000])
+        T = T_ms * 1000000
+        wft = rng.choice([1, 2, 3])
+        params = {'rx_flowcontrol_timeout': T_ms, 'wftmax': wft}
+        ops = [{'op': 'layer', 'i': 0, 'addr': a, 'params': params}]
+        pre = gen.prefix_len(a, 'tx')
+        c = 7 - pre
+        ncf = rng.choice([4, 6, 9])
+        n = (6 - pre) + c * ncf - rng.randrange(0, c - 1)
+        ops.append({'op': 'send', 'i': 0, 'id': 1, 'data': gen.rand_payload(rng, n)})
+        ops.append({'op': 'process', 'i': 0})       # FF out
+        stmin_byte = rng.choice([1, 2, 0xF5])
+        st_ns = ref.stmin_ns(stmin_byte)
+        rbs = rng.choice([0, 0, ncf + 5])
+        fidc, ext, cts = fc_frame(a, rbs, stmin_byte)
+        _, _, wait = fc_frame(a, 0, 0, status=1)
+        ops.append({'op': 'frame', 'i': 0, 'id': fidc, 'ext': ext, 'data': cts})
+        ops.append({'op': 'process', 'i': 0})
+        k_cf = rng.randrange(0, ncf - 1)            # Consecutive Frames sent before the Wait arrives
+        for _ in range(k_cf):
+            ops.append({'op': 'tick', 'dt': st_ns + 1000})
+            ops.append({'op': 'process', 'i': 0})
+        nwait = rng.randrange(1, wft + 1)
+        for w in range(nwait):                      # Wait frames, each well inside the deadline of the previous restart
+            ops.append({'op': 'tick', 'dt': rng.choice([0, 1000, min(T // 3, st_ns // 2)])})
+            ops.append({'op': 'frame', 'i': 0, 'id': fidc, 'ext': ext, 'data': wait})
+            ops.append({'op': 'process', 'i': 0})
+        late = rng.random() < 0.6
+        delta = max(1000, rng.choice([1000, 20000, T // 10, T // 2 - 1]))
+        d = T + delta if late else T - delta
+        idle = rng.randrange(0, 4)
+        parts = split_gap(rng, d, idle)
+        acc = 0
+        expect_at = None
+        for pgap in parts[:-1]:
+            ops.append({'op': 'tick', 'dt': pgap})
+            acc += pgap
+            ops.append({'op': 'process', 'i': 0})
+            if acc > T and expect_at is None:
+                expect_at = len(ops) - 1
+        ops.append({'op': 'tick', 'dt': parts[-1]})
+        ops.append({'op': 'frame', 'i': 0, 'id': fidc, 'ext': ext, 'data': cts})
+        ops.append({'op': 'process', 'i': 0})
+        if late and expect_at is None:
+            expect_at = len(ops) - 1
+        if not late:
+            for _ in range(ncf + 2):
+                ops.append({'op': 'tick', 'dt': st_ns + 1000})
+                ops.append({'op': 'process', 'i': 0})
+        for _ in range(4):
+            ops.append({'op': 'tick', 'dt': rng.choice([T // 2 + 1, T + 1000, 3 * T])})
+            ops.append({'op': 'process', 'i': 0})
+        return {'ops': ops, 'meta': {'family': 'tx', 'T': T, 'late': late, 'idle': idle, 'gap_at': 100 + k_cf, 'wait': True, 'late_wait': False,
+                                     'expect_timeout': late, 'expect_at': expect_at if late else None, 'rbs': rbs, 'wft': wft}}
 
     # ------------------------------------------------------------------ RX
     def rx_family(self, rng):
